@@ -281,6 +281,51 @@ func runFlow(tr string, p pat, raw, big bool, limit int, r *rand.Rand, heldMode 
 	return ret()
 }
 
+// duplex: both ends of one PAIR connection send at the same time, with different lengths in the two directions, while
+// both receive: what arrives in each direction is exactly what was sent in that direction, in order (a buffer shared
+// by the two directions of a connection shows here).  Returns the two flows (both "forward").
+func runDuplex(tr string, limit int, r *rand.Rand) []*flow {
+	a, b := wire.New("pair"), wire.New("pair")
+	defer a.Close()
+	defer b.Close()
+	p := pats[0]
+	fa := &flow{tr: tr, p: p, fwd: true, maxrx: limit, note: "duplex, small"}
+	fb := &flow{tr: tr, p: p, fwd: true, maxrx: limit, note: "duplex, large"}
+	_ = a.SetOption(mangos.OptionMaxRecvSize, limit)
+	_ = b.SetOption(mangos.OptionMaxRecvSize, limit)
+	ea, eb := wire.Track(a), wire.Track(b)
+	if _, err := wire.Connect(tr, b, a, eb, ea); err != nil {
+		fa.note = "connect failed: " + err.Error()
+		return []*flow{fa, fb}
+	}
+	const n = 400
+	for i := 0; i < n; i++ {
+		fa.msgs = append(fa.msgs, mspec{uint64(r.Intn(256)), 1 + r.Intn(90)})
+		fb.msgs = append(fb.msgs, mspec{uint64(r.Intn(256)), 900 + r.Intn(2000)})
+	}
+	var wg sync.WaitGroup
+	send := func(s mangos.Socket, f *flow) {
+		defer wg.Done()
+		for _, m := range f.msgs {
+			if err := sendOne(s, false, nil, coqgen.GenBody(m.seed, m.n), false); err != nil {
+				f.note = "send failed: " + err.Error()
+				return
+			}
+		}
+	}
+	recv := func(s mangos.Socket, f *flow) {
+		defer wg.Done()
+		f.got, _ = recvN(s, n, 4*time.Second, false)
+	}
+	wg.Add(4)
+	go recv(b, fa) // what a sends arrives at b
+	go recv(a, fb)
+	go send(a, fa)
+	go send(b, fb)
+	wg.Wait()
+	return []*flow{fa, fb}
+}
+
 func main() {
 	if len(os.Args) < 2 {
 		fmt.Fprintln(os.Stderr, "usage: c01 <outdir>")
@@ -326,6 +371,10 @@ func main() {
 			jobs = append(jobs, job{tr, pats[3], false, true, 1 << 20, r.Int63(), 0})
 		}
 	}
+	// both directions of one connection at once, on every transport
+	for _, tr := range wire.Transports {
+		jobs = append(jobs, job{tr, pats[0], false, true, 70000, r.Int63(), 3})
+	}
 	results := make([][]*flow, len(jobs))
 	var wg sync.WaitGroup
 	sem := make(chan struct{}, 12)
@@ -335,6 +384,10 @@ func main() {
 			defer wg.Done()
 			sem <- struct{}{}
 			defer func() { <-sem }()
+			if j.held == 3 {
+				results[i] = runDuplex(j.tr, j.limit, rand.New(rand.NewSource(j.seed)))
+				return
+			}
 			results[i] = runFlow(j.tr, j.p, j.raw, j.big, j.limit, rand.New(rand.NewSource(j.seed)), j.held)
 		}(i, j)
 	}
